@@ -203,13 +203,9 @@ fn run_pass(case: &Case, mode_fresh: bool) -> Pass {
     Pass { results, extra, oracle: ctx.oracle, hlog }
 }
 
-fn main() {
-    std::panic::set_hook(Box::new(|_| {}));
-    let args: Vec<String> = std::env::args().collect();
-    let cases = read_cases(&args[1]);
-    let stdout = std::io::stdout();
-    let mut out = std::io::BufWriter::new(stdout.lock());
-    for case in &cases {
+fn render_case(case: &Case) -> String {
+    let mut out: Vec<u8> = vec![];
+    {
         let a = run_pass(case, false);
         let mut cfgs: Vec<String> = case.cfg.iter().map(|(k, v)| format!("{}={}", k, v)).collect();
         cfgs.sort();
@@ -245,5 +241,40 @@ fn main() {
             writeln!(out, "H {} {} {}", s(iv), s(v), f).unwrap();
         }
         writeln!(out, "END").unwrap();
+    }
+    String::from_utf8(out).unwrap()
+}
+
+/// Cases run on a worker thread; a case that does not finish within the time limit (the crate loops
+/// forever) is reported as `HANG` and the process exits with status 3 (the caller resumes after it).
+fn main() {
+    std::panic::set_hook(Box::new(|_| {}));
+    let args: Vec<String> = std::env::args().collect();
+    let cases = read_cases(&args[1]);
+    let limit: u64 = std::env::var("PDS_CASE_TIMEOUT_MS").ok().and_then(|s| s.parse().ok()).unwrap_or(8000);
+    let stdout = std::io::stdout();
+    let mut out = std::io::BufWriter::new(stdout.lock());
+    let (tx, rx) = std::sync::mpsc::channel::<String>();
+    let ids: Vec<(String, String)> = cases.iter().map(|c| (c.id.clone(), c.st.clone())).collect();
+    std::thread::Builder::new()
+        .stack_size(256 << 20)
+        .spawn(move || {
+            for case in &cases {
+                let text = render_case(case);
+                if tx.send(text).is_err() {
+                    return;
+                }
+            }
+        })
+        .unwrap();
+    for (id, st) in ids {
+        match rx.recv_timeout(std::time::Duration::from_millis(limit)) {
+            Ok(text) => out.write_all(text.as_bytes()).unwrap(),
+            Err(_) => {
+                writeln!(out, "CASE {} {} \nHANG\nEND", id, st).unwrap();
+                out.flush().unwrap();
+                std::process::exit(3);
+            }
+        }
     }
 }
